@@ -33,7 +33,12 @@ def ast_functions(run, keys, tier, rt_quick=8, rt_thorough=60, search_n=150, sig
         if rt['accepted'] == 0 and not rt['error']:
             run.checker_errors.append('vacuity: no generated input satisfied the precondition of %s' % k)
         for v in rep.vacuity:
-            run.checker_errors.append('vacuity: ' + v)
+            if rep.failed():
+                # an invariant / callee precondition that no longer holds is assumed further down: the contradiction is a consequence of the
+                # failed obligation (reported below), not a vacuous proof
+                run.note('after the failed obligation(s) of %s the path conditions are contradictory: %s' % (k, v))
+            else:
+                run.checker_errors.append('vacuity: ' + v)
         # ---- concrete violations found by the harness on the real code
         pf = _property_fails(rt) or _property_fails(search.get(k))
         src = rt if _property_fails(rt) else search.get(k)
